@@ -277,6 +277,7 @@ func (m *memStore) Query(expression string, options ...spi.QueryOption) (spi.Ite
 		return nil, errInvalidQueryExpressionFormat
 	}
 
+	// Keyed by criterion (not by tag name): two criteria on the same tag name must both hold.
 	queryResults := make(map[string]*queryResult)
 
 	for _, exp := range strings.Split(expression, "&&") {
@@ -287,14 +288,14 @@ func (m *memStore) Query(expression string, options ...spi.QueryOption) (spi.Ite
 
 			keys, dbEntries := m.getMatchingKeysAndDBEntries(expressionTagName, "")
 
-			queryResults[expressionTagName] = &queryResult{keys: keys, dbEntries: dbEntries}
+			queryResults[exp] = &queryResult{keys: keys, dbEntries: dbEntries}
 		case expressionTagNameAndValueLength:
 			expressionTagName := expressionSplit[0]
 			expressionTagValue := expressionSplit[1]
 
 			keys, dbEntries := m.getMatchingKeysAndDBEntries(expressionTagName, expressionTagValue)
 
-			queryResults[expressionTagName] = &queryResult{keys: keys, dbEntries: dbEntries}
+			queryResults[exp] = &queryResult{keys: keys, dbEntries: dbEntries}
 		default:
 			return nil, errInvalidQueryExpressionFormat
 		}
